@@ -33,7 +33,7 @@
           r_look -RLook-> r_add                   inst := c.getInstanceIO(duty)  -- Relookup = TRUE: a SECOND lookup (as
                                                    coded: a fresh IO if the first one was deleted meanwhile)
           r_add -DlAdd(st)-> r_buf | r_err        deadliner.Add: expired/exempt duty is skipped (nil)
-          r_buf -RBuf-> r_run                     getRecvBuffer(duty): a third lookup
+          r_buf -RBuf-> r_run                     getRecvBuffer(duty): a third lookup (repaired: the caller's IO)
           r_run -Forward / TakeValue-> r_run ; -RunCancel-> r_sniff ; -Decided-> r_dec     qbft.Run (Solo: a cluster of one)
           r_dec -Deliver(s)-> ... -> r_sniff      Decide: subscribers in order
           r_sniff -Sniff-> r_err -RErr-> ret      snifferFunc(instance); inst.ErrCh <- err (capacity 1: blocks when full)
@@ -298,8 +298,10 @@ DlAdd(c) == /\ qc[c].pc = "r_add"
             /\ UNCHANGED <<imap, ios, delq, qsubs, qdlv, gate>>
 \* c.getRecvBuffer(duty)
 RBuf(c) == /\ qc[c].pc = "r_buf" /\ "add" \notin gate
-           /\ LET d == qc[c].d IN /\ UpdQ(c, [qc[c] EXCEPT !.pc = "r_run", !.bio = Look(d)])
-                                  /\ ios' = IosAfterLook(d) /\ imap' = ImapAfterLook(d)
+           /\ IF Relookup
+                THEN LET d == qc[c].d IN /\ UpdQ(c, [qc[c] EXCEPT !.pc = "r_run", !.bio = Look(d)])
+                                         /\ ios' = IosAfterLook(d) /\ imap' = ImapAfterLook(d)
+                ELSE UpdQ(c, [qc[c] EXCEPT !.pc = "r_run", !.bio = qc[c].io]) /\ UNCHANGED <<ios, imap>>
            /\ UNCHANGED <<dl, delq, qsubs, qdlv, eff, gate>>
 \* ProcessReceives: a buffered message reaches the instance
 Forward(c) == /\ qc[c].pc = "r_run" /\ qc[c].ctx = "live" /\ ios[qc[c].bio].buf > 0
